@@ -36,8 +36,9 @@ def field_contract(bits):
     """specification of one fixed-width two's complement secret-key field: (is_reserved_minimum, value as 16-bit signed term)"""
     w = len(bits)
     bz = [zb(b) for b in bits]
-    err = z3.And(bz[0], *[z3.Not(b) for b in bz[1:]])
-    val = z3.Concat(*[z3.If(b, z3.BitVecVal(1, 1), z3.BitVecVal(0, 1)) for b in bz])
+    err = z3.And(bz[0], *[z3.Not(b) for b in bz[1:]]) if w > 1 else bz[0]
+    one = [z3.If(b, z3.BitVecVal(1, 1), z3.BitVecVal(0, 1)) for b in bz]
+    val = z3.Concat(*one) if w > 1 else one[0]
     val = z3.SignExt(16 - w, val)
     return simp(err), simp(val)
 
@@ -217,3 +218,134 @@ def _parse_scen(what, N, L, fixed, chunk, t_end, tag, sites):
             'obligations': asserts + out['checks'] + ex.paths, 'violable': len(out['bad']) + len(panics), 'samples': out['samples'],
             'symbolic_bytes': len([x for x in xs if not x.conc]),
             'mir_hash': {what + '::from_bytes': fn.hash, what + '::to_bytes': P.by_key[what + '::to_bytes'].hash}}
+
+
+# ---------------------------------------------------------------------------------------------- to_bytes -> from_bytes (C05)
+def roundtrip_scen(what, N, chunk=2, deadline_s=None, tag='', window=None):
+    """for EVERY object of the representable set: |to_bytes(x)| is the variant's constant and from_bytes(to_bytes(x)) = Ok(x')
+    with x' equal to x on h / (r, s) / (f, g, F). `window` = (lo, hi): only coefficients lo..hi are symbolic (others 0)."""
+    t_end = time.time() + deadline_s if deadline_s else None
+
+    def build(sites):
+        r = _roundtrip_scen(what, N, chunk, t_end, tag, window, sites)
+        return r['_ex'], r
+    ex, r = run_with_defer(build)
+    r.pop('_ex')
+    return r
+
+
+def _roundtrip_scen(what, N, chunk, t_end, tag, window, sites):
+    P = prog()
+    ex = new_exec(P)
+    ex.defer = sites is not None
+    ex.nodefer_sites = set(sites or ())
+    ex.deadline = t_end
+    if what == 'SecretKey':
+        ex.over.update(sk_overrides(ex, N))
+    L = {'PublicKey': spec.PK_BYTELEN, 'SecretKey': spec.SK_BYTELEN, 'Signature': spec.SIG_BYTELEN}[what][N]
+    lo, hi = window if window else (0, N)
+
+    def sym_i16(name, bound):
+        v = ex.new_input(name, 'i16')
+        ex.assume(z3.And(v.t >= -bound, v.t <= bound))
+        return v
+    fields = {}
+    if what == 'PublicKey':
+        hs = []
+        for i in range(N):
+            if lo <= i < hi:
+                v = ex.new_input('h%d' % i, 'u32'); ex.assume(z3.ULT(v.t, Q))
+            else:
+                v = mkint(0, 'u32')
+            hs.append(v)
+        obj = Agg('PublicKey', None, (Agg('Polynomial', None, (Seq('vec', [Agg('Felt', None, (v,)) for v in hs]),)),))
+        fields['h'] = hs
+    elif what == 'Signature':
+        r = [ex.new_input('r%d' % i, 'u8') for i in range(40)]
+        s = [ex.new_input('s%d' % i, 'u8') for i in range(L - 41)]
+        obj = Agg('Signature', None, (Seq('arr', r), Seq('vec', s)))
+        fields['r'] = r; fields['s'] = s
+    else:
+        wfg = 6 if N == 512 else 5
+        bfg = (1 << (wfg - 1)) - 1
+        f = [sym_i16('f%d' % i, bfg) if lo <= i < hi else mkint(0, 'i16') for i in range(N)]
+        g = [sym_i16('g%d' % i, bfg) if lo <= i < hi else mkint(0, 'i16') for i in range(N)]
+        F = [sym_i16('F%d' % i, 127) if lo <= i < hi else mkint(0, 'i16') for i in range(N)]
+        G = [mkint(0, 'i16')] * N
+
+        def pol(v):
+            return Agg('Polynomial', None, (Seq('vec', v),))
+        # b0 = [g, -f, G, -F]; the object stores -f and -F
+        negf = [V(-x.t, 'i16') if not x.conc else mkint(-x.t, 'i16') for x in f]
+        negF = [V(-x.t, 'i16') if not x.conc else mkint(-x.t, 'i16') for x in F]
+        obj = Agg('SecretKey', None, (Seq('arr', [pol(g), pol(negf), pol(G), pol(negF)]), Opaque('tree')))
+        fields['f'] = f; fields['g'] = g; fields['F'] = F
+    out = {'bad': [], 'checks': 0, 'tb': 0, 'fb_ok': 0, 'fb_err': 0, 'samples': []}
+
+    def mi(m):
+        return {k: v for k, v in list(ex.model_inputs(m).items())[:40]}
+
+    def on_tb(ex1, st1, rv1):
+        out['tb'] += 1
+        by = list(rv1.e)
+        out['checks'] += 1
+        if len(by) != L:
+            out['bad'].append({'kind': '%s::to_bytes returns %d bytes, the format says %d' % (what, len(by), L), 'model': mi(ex.model())})
+            return
+
+        def on_fb(ex2, st2, rv2):
+            if isinstance(rv2, SymResult):
+                raise Unsupported('symbolic result escaped')
+            out['checks'] += 1
+            if rv2.variant == 'Err':
+                out['fb_err'] += 1
+                out['bad'].append({'kind': 'from_bytes(to_bytes(x)) = Err(%s) for a representable object' % rv2.f[0].variant, 'model': mi(ex.model())})
+                return
+            out['fb_ok'] += 1
+            got = rv2.f[0]
+            pairs = []
+            if what == 'PublicKey':
+                gh = got.f[0].f[0].e
+                pairs = [(a.f[0], b) for a, b in zip(gh, fields['h'])]
+                if len(gh) != N: pairs = None
+            elif what == 'Signature':
+                pairs = list(zip(got.f[0].e, fields['r'])) + list(zip(got.f[1].e, fields['s']))
+                if len(got.f[1].e) != len(fields['s']): pairs = None
+            else:
+                b0 = got.f[0].e
+                gg = b0[0].f[0].e; gnf = b0[1].f[0].e; gnF = b0[3].f[0].e
+                if len(gg) != N or len(gnf) != N or len(gnF) != N:
+                    pairs = None
+                else:
+                    pairs = list(zip(gg, fields['g'])) + [(a, V(-b.t, 'i16') if not b.conc else mkint(-b.t, 'i16')) for a, b in zip(gnf, fields['f'])] + \
+                            [(a, V(-b.t, 'i16') if not b.conc else mkint(-b.t, 'i16')) for a, b in zip(gnF, fields['F'])]
+            if pairs is None:
+                out['bad'].append({'kind': 'decoded object has the wrong shape', 'model': mi(ex.model())}); return
+            step = 8
+            for c0 in range(0, len(pairs), step):
+                ds = []
+                for a, b in pairs[c0:c0 + step]:
+                    if a.conc and b.conc:
+                        if a.t != b.t: ds.append(z3.BoolVal(True))
+                        continue
+                    w = WIDTH[a.ty]
+                    ds.append((z3.BitVecVal(a.t, w) if a.conc else a.t) != (z3.BitVecVal(b.t, w) if b.conc else b.t))
+                if not ds: continue
+                out['checks'] += 1
+                ok, m = ex.check_local(z3.Or(*ds))
+                if ok:
+                    m = ex.check(z3.Or(*ds))[1]
+                    out['bad'].append({'kind': 'from_bytes(to_bytes(x)) differs from x (field group %d)' % c0, 'model': mi(m)})
+                    return
+            if len(out['samples']) < 1:
+                out['samples'].append({'object_fields': {k: len(v) for k, v in fields.items()}, 'encoded_len': len(by)})
+        nested(ex, what + '::from_bytes', [temp_ref(Seq('arr', by), (0, len(by)))], {'N': N}, on_fb)
+    ex.on_return = on_tb
+    st = ex.start(P.by_key[what + '::to_bytes'], [temp_ref(obj)], env={'N': N})
+    ex.explore(st)
+    panics = [{'msg': p['msg'], 'site': p['site'], 'model': {k: v for k, v in list((p['inputs'] or {}).items())[:40]}} for p in ex.panics[:4]]
+    asserts = sum(c[0] for c in ex.assert_sites.values())
+    return {'_ex': ex, 'tag': tag or '%s::<%d> to_bytes -> from_bytes%s' % (what, N, (' coefficients %d..%d symbolic' % (lo, hi)) if window else ''), 'what': what, 'N': N, 'L': L,
+            'paths': ex.paths, 'queries': ex.nq + ex.nq_aux, 'solver_s': ex.solver_s, 'steps': ex.steps, 'to_bytes_paths': out['tb'], 'ok': out['fb_ok'], 'err': out['fb_err'],
+            'bad': out['bad'][:5], 'panics': panics, 'obligations': asserts + out['checks'] + ex.n_deferred, 'violable': len(out['bad']) + len(panics),
+            'samples': out['samples'], 'mir_hash': {what + '::to_bytes': P.by_key[what + '::to_bytes'].hash, what + '::from_bytes': P.by_key[what + '::from_bytes'].hash}}
